@@ -137,6 +137,7 @@ class SourceSys:
             return ops
         sizes = [1, 2, 3, max(n, 1), n + 1]
         ops = [("read", s) for s in sorted(set(sizes))]
+        ops += [("read_np", 1), ("read_np", 2)]  # the same sizes given as numpy integers
         if self.kind != "stdin":
             ops += [("read", None), ("read", -1)]
         ops += [("open",), ("close",), ("is_open",)]
@@ -166,8 +167,13 @@ class SourceSys:
         Err = lib()["AudioIOError"]
         try:
             k = op[0]
-            if k == "read":
-                out = r.read(op[1])
+            if k in ("read", "read_np"):
+                size = op[1]
+                if k == "read_np":
+                    import numpy as np
+
+                    size = np.int64(size)
+                out = r.read(size)
                 if out is None:
                     return ("none",)
                 if not isinstance(out, (bytes, bytearray)):
@@ -210,7 +216,7 @@ class SourceSys:
     def _model(self, op):
         k = op[0]
         n = self.n
-        if k == "read":
+        if k in ("read", "read_np"):
             if not self.open:
                 return ("raise", "io-error")
             rem = n - self.cur
